@@ -2,7 +2,7 @@
 
 // Package vtime checks property C16 (read timeout) on the fake clock of testing/synctest: the REAL
 // server (pkg/server through pkg/verifhook) runs inside a bubble over net.Pipe connections, whose
-// deadlines fire on the bubble's clock, so the oracle is exact (zero tolerance): a connection that
+// deadlines fire on the bubble's clock, so the oracle is exact (never early; late by at most cutGrace): a connection that
 // does not complete its next request is closed at exactly t0+T, where t0 is the instant the server
 // began waiting for that request; a connection that completes requests more often than T is never
 // closed. Violations go to the JSON report (env VTIME_REPORT); the Go test fails only on harness
@@ -151,6 +151,7 @@ type scenario struct {
 	N      int       `json:"n,omitempty"`       // active: number of requests
 	Path   string    `json:"path,omitempty"`    // path of the STAT requests
 	Idle   string    `json:"idle,omitempty"`    // disabled: length of the silence
+	LateNs int64     `json:"late_ns,omitempty"` // active: the server goroutine is held this long between reading a command and reading its path (busy scheduler)
 }
 
 type violation struct {
@@ -333,6 +334,18 @@ func genScenarios(r *rand.Rand, thorough bool) []*scenario {
 				add(sc, T)
 			}
 		}
+		// (4b) active on a busy server: every request is complete in the server's hands at d < T, but the
+		// goroutine is scheduled late between the command header and the path (d + late > T)
+		for _, pl := range [][2]int64{{800, 300}, {500, 600}, {990, 20}, {100, 950}} {
+			for i := 0; i < pick(2, 6); i++ {
+				n := pick(40, 400)
+				sc := &scenario{Kind: fmt.Sprintf("active-0.%03dT-server-late-0.%03dT", pl[0], pl[1]), DNs: int64(T) / 1000 * pl[0], LateNs: int64(T) / 1000 * pl[1], N: n/2 + r.Intn(n/2), Path: randPath(r)}
+				if i%2 == 1 {
+					sc.Held, sc.Reads = true, true
+				}
+				add(sc, T)
+			}
+		}
 		// (5) open file and open directory held when the cut happens
 		for i := 0; i < pick(50, 500); i++ {
 			k := r.Intn(4)
@@ -433,6 +446,10 @@ func (x *runner) failedRequest(rule string, what string, stage string, got int, 
 // awaitCut is the oracle of the non-trivial side: the server started to wait for a request at t0;
 // the client delivers only the given partial writes of req (possibly none) and the connection must
 // be observed closed at exactly t0+T, with every file handle of the connection released.
+// cutGrace is how long after t0+T the close may be observed and still count as "cut after T": a
+// twentieth of T, at most 20 ms (virtual time: nothing but the server's own decisions can delay it).
+func cutGrace(T time.Duration) time.Duration { return min(T/20, 20*time.Millisecond) }
+
 func (x *runner) awaitCut(t0 time.Time, req []byte, writes []partial) {
 	T := x.T
 	want := t0.Add(T)
@@ -454,7 +471,7 @@ func (x *runner) awaitCut(t0 time.Time, req []byte, writes []partial) {
 		case r.at.Before(want):
 			x.violate("cut-early", "connection closed at t0+%v, %v before t0+T (T=%v, t0=%v after start, %d/%d request bytes delivered)",
 				r.at.Sub(t0), want.Sub(r.at), T, x.rel(t0), delivered, len(req))
-		case r.at.After(want):
+		case r.at.After(want.Add(cutGrace(T))):
 			x.violate("cut-late", "connection closed at t0+%v, %v after t0+T (T=%v, t0=%v after start, %d/%d request bytes delivered)",
 				r.at.Sub(t0), r.at.Sub(want), T, x.rel(t0), delivered, len(req))
 		default:
@@ -498,7 +515,17 @@ func (x *runner) awaitCut(t0 time.Time, req []byte, writes []partial) {
 		return
 	default:
 	}
-	// still open at t0+T: how late?
+	// the statement says when the connection is due, not how many instructions the closing may take: a
+	// server that re-checks for bytes which arrived in time before it gives up is on time as well
+	sleepUntil(want.Add(cutGrace(T)))
+	synctest.Wait()
+	select {
+	case r := <-resCh:
+		judge(r, off)
+		return
+	default:
+	}
+	// still open after t0+T (+grace): how late?
 	sleepUntil(t0.Add(3 * T))
 	synctest.Wait()
 	select {
@@ -637,6 +664,12 @@ func runScenario(t *testing.T, sc *scenario) *outcome {
 
 	case sc.N > 0:
 		// active: requests every d < T, for many multiples of T
+		if sc.LateNs > 0 {
+			// a busy server: its goroutine gets the CPU again only LateNs after it has read the command
+			// header; the complete request was delivered in one write at d < T all the same
+			verifhook.SetAfterCommandReadHook(func() { time.Sleep(time.Duration(sc.LateNs)) })
+			defer verifhook.SetAfterCommandReadHook(nil)
+		}
 		d := time.Duration(sc.DNs)
 		for i := 0; i < sc.N; i++ {
 			sleepUntil(t0.Add(d))
